@@ -380,11 +380,11 @@ META = {
         run_cap_s=1200, shrink_tests=4, shrink_s=400,
     ),
     "C13": _m(
-        "S", "exploration", (32, 400), (900, 5400),
+        "S", "exploration", (64, 1000), (900, 5400),
         "Each run = one Gibbs-kernel experiment. Even runs: a DistRegBuilder model (Normal response, loc/scale predictors, one np-smooth with a "
         "penalty from {identity, ridge + differences, first differences (rank d-1), second differences (rank d-2)}, d = 2-6, hyperparameters "
         "a, b, coefficient values and current tau2 from wide ranges, optionally a second np-smooth) and liesel's tau2_gibbs_kernel. Odd runs: a "
-        "model with a FiniteDiscrete (2-6 outcomes) or Bernoulli prior on c, a Normal / Poisson / no downstream likelihood through eta = mu + "
+        "model with a FiniteDiscrete (2-6 outcomes, in 40% one of them with prior probability exactly 0) or Bernoulli prior on c, a Normal / Poisson / no downstream likelihood through eta = mu + "
         "slope c, and finite_discrete_gibbs_kernel with outcomes given or extracted. Each run (1) checks that the analytic full conditional is "
         "proportional to the model's own joint density as a function of that variable over a grid, and (2) draws 1e5-4e5 values through "
         "kernel.transition over distinct keys and tests PIT / category frequencies against the analytic conditional. Non-trivial = draws made; "
